@@ -303,7 +303,7 @@ func vfGenScalar(rt *rapid.T, fd protoreflect.FieldDescriptor) protoreflect.Valu
 	case protoreflect.StringKind:
 		return protoreflect.ValueOfString(rapid.SampledFrom([]string{"", "a", "key", "ünï", "type.googleapis.com/google.protobuf.Value", "x\x00y"}).Draw(rt, "s"))
 	case protoreflect.BytesKind:
-		n := rapid.SampledFrom([]int{0, 1, 3, 17, 300, 70000}).Draw(rt, "blen")
+		n := rapid.SampledFrom([]int{0, 1, 3, 17, 300, 70000, 70000, 1 << 21}).Draw(rt, "blen")
 		b := make([]byte, n)
 		seed := byte(rapid.IntRange(0, 255).Draw(rt, "bseed"))
 		for i := range b {
@@ -346,7 +346,7 @@ func vfFillMsg(rt *rapid.T, m protoreflect.Message, depth int) {
 			l := m.Mutable(fd).List()
 			n := rapid.IntRange(0, 4).Draw(rt, "listlen")
 			if rapid.IntRange(0, 19).Draw(rt, "biglist") == 0 {
-				n = 8
+				n = rapid.SampledFrom([]int{8, 8, 130, 300}).Draw(rt, "biglen")
 			}
 			for j := 0; j < n; j++ {
 				if isMsg {
